@@ -26,7 +26,9 @@ PFX = {"k": 1e3, "m": 1e-3, "M": 1e6, "µ": 1e-6, "u": 1e-6, "da": 1e1, "c": 1e-
 OPS = ["add_foo_len", "add_foo_time", "add_qux", "add_kfoo", "mod_foo", "mod_foo_q", "mod_pc", "mod_qux", "rm_foo", "rm_qux", "rm_kfoo", "rm_pc", "def_baz",
        "mod_kfoo", "add_foo_np", "mod_foo_swapdim"]
 PROBES = ["foo", "kfoo", "mfoo", "Mfoo", "µfoo", "dafoo", "qux", "kqux", "baz", "pc", "kpc", "Mpc", "foo**2/s", "kfoo*qux", "foo*kfoo", "pc/yr", "sqrt(foo)",
-          "m", "kfoo**2", "qux/kfoo", "1/foo", "mpc"]
+          "m", "kfoo**2", "qux/kfoo", "1/foo", "mpc", "parsec", "Kiloparsec", "megaparsec/year", "foo*parsec"]
+# written-out names the parser rewrites to symbols (the library's alias table, read as data)
+ALIASES = {"parsec": "pc", "Kiloparsec": "kpc", "megaparsec": "Mpc", "year": "yr"}
 
 
 def default_entry(sym):
@@ -145,7 +147,7 @@ def _eval_probe(model, probe):
     import re
 
     def atom(n):
-        r = model.resolve(n)
+        r = model.resolve(ALIASES.get(n, n))
         if r is None:
             raise KeyError(n)
         return T.mpf(r[0]), r[1], r[2]
@@ -206,6 +208,7 @@ def judge_history(hist, part, deep=True):
     reg.add(f"vfmarker{next(_MARK)}", 1.0 + next(_MARK), D_.length)
     model = Model()
     captured = []  # (probe, step, Unit object, facts at capture)
+    held = []  # (spelling, step, quantity 6.0 <spelling> created then, facts then)
     kinds = []
     for step, op in enumerate(hist):
         part.ev()
@@ -225,6 +228,27 @@ def judge_history(hist, part, deep=True):
             if now != facts:
                 out.append((f"C12:captured-unit-changed:{edit_kind}", {"history": hist[: step + 1], "probe": probe, "captured_at": st0, "was": facts, "now": now}))
                 return out
+        # quantities created earlier keep their meaning: converting one to the *current* unit of the same spelling rescales it
+        for probe, st0, qobj, facts in held[-6:]:
+            cur = _eval_probe(model, probe)
+            if cur is None:
+                continue
+            want_v = None if cur[1] != facts[1] else 6.0 * facts[0] / cur[0]
+            for rn, rf in {"to": lambda: float(qobj.to(probe).v), "in_units": lambda: float(qobj.in_units(probe).v), "convert_to_units": lambda: float((lambda c_: (c_.convert_to_units(probe), c_)[1])(qobj.copy()).v),
+                           "add-to-new": lambda: float((unyt_quantity(0.0, probe, registry=reg) + qobj).v), "order-vs-new": lambda: (want_v or 1.0) if (bool(qobj < unyt_quantity((want_v or 1.0) * 1.001, probe, registry=reg)) and bool(qobj > unyt_quantity((want_v or 1.0) * 0.999, probe, registry=reg))) else 0.0}.items():
+                try:
+                    got_v = rf()
+                    err = None
+                except Exception as e:
+                    got_v, err = None, type(e).__name__
+                if want_v is None:
+                    ok = err is not None
+                else:
+                    ok = err is None and abs(got_v / want_v - 1) < 1e-12
+                if not ok:
+                    out.append((f"C12:held-quantity-vs-current-unit:{rn}", {"history": hist[: step + 1], "spelling": probe, "created_at": st0, "scale_then": facts[0], "now": cur[0],
+                                                                           "dim_then": T.dim_name(facts[1]), "dim_now": T.dim_name(cur[1]), "got": got_v, "error": err, "want": want_v}))
+                    return out
         # probe sweep
         for probe in PROBES:
             exp = _eval_probe(model, probe)
@@ -232,7 +256,9 @@ def judge_history(hist, part, deep=True):
             spell = "atomic" if probe.isalpha() or probe in ("µfoo",) else "compound"
             if probe in ("kfoo", "mfoo", "Mfoo", "µfoo", "dafoo", "kqux", "kpc", "Mpc", "mpc"):
                 spell = "prefixed"
-            sym = "foo" if "foo" in probe else "qux" if "qux" in probe else "pc" if "pc" in probe else "other"
+            if any(a in probe for a in ALIASES):
+                spell = "written-out-name"
+            sym = "foo" if "foo" in probe else "qux" if "qux" in probe else "pc" if ("pc" in probe or "parsec" in probe) else "other"
             if exp is None:
                 if obs[0] != "unknown":
                     out.append((f"C12:stale-after-{edit_kind}:unknown-symbol-resolves:{spell}:{sym}", {"history": hist[: step + 1], "probe": probe, "got": obs}))
@@ -246,6 +272,8 @@ def judge_history(hist, part, deep=True):
                 return out
             if step + 1 < len(hist) and probe in ("foo", "kfoo", "foo**2/s", "pc", "qux"):
                 captured.append((probe, step, Unit(probe, registry=reg), (obs[1], obs[2], obs[3])))
+                if probe in ("foo", "pc", "kfoo"):
+                    held.append((probe, step, unyt_quantity(6.0, probe, registry=reg), (obs[1], obs[2], obs[3])))
         # arithmetic / conversion observations (also warm the lru caches before the next edit)
         if deep and model.resolve("foo") is not None:
             fs, fd, _ = model.resolve("foo")
